@@ -7,7 +7,7 @@ LEVEL = "proof"
 PROPS_FILE = "C14.v"
 RUN_MODULE = "RunC14"
 TRANSLATOR_UNITS = []
-SHARD = 120
+SHARD = 250
 RULE = ("signature trees built with the real API: (1) exhaustive chains of nested interface members "
         "(every In/Out x FlippedSignature-wrapper combination, depth <= 3, sampled at depth 4) and all 1-member / sampled "
         "2-member signatures over a 32-member alphabet; (2) seeded random trees depth <= 4, <= 4 members per level, dims in "
@@ -19,7 +19,7 @@ RULE = ("signature trees built with the real API: (1) exhaustive chains of neste
         "(created interface complies and flattens to the specification leaves; connect assigns every input from the one output). "
         "non-trivial = at least one port leaf and, for connect, at least 2 arguments; distinct by case hash")
 MODELLED = ("wiring.py Member/Signature/FlippedSignature(+Members), flatten, create, is_compliant, FlippedInterface "
-            "attribute access, flipped(), connect(), ComponentMetadata.as_json are modelled in coq/Model/Wiring.py; "
+            "attribute access, flipped(), connect(), ComponentMetadata.as_json are modelled in coq/Model/Wiring.v; "
             "shape casting of port descriptions (C10), Signal naming, Module statement storage, the simulator (used as "
             "an oracle for data flow) and jschon validation against the published schema are validated only")
 ASSUMPTIONS = ["member names are compared as integers ranked in Python str order",
@@ -53,7 +53,7 @@ def cast_shape(sd):
     if k in ("enum", "pyenum"):
         if k == "enum":
             return (sd[2], sd[3])
-        return (max(bits_for(v, False) for v in sd[1]), False)
+        return (max(max(1, bits_for(v, False)) for v in sd[1]), False)   # amaranth bits_for(0) == 1
     raise ValueError(sd)
 
 
@@ -280,13 +280,13 @@ def mutate_sig(rng, sig):
     return outs
 
 
-def obj_corruptions(rng, sig):
+def obj_corruptions(rng, sig, nl=1):
     """edits of one leaf attribute: (kind, edits for the arg where the leaf is an input, edits for the output arg)."""
     out = []
     lv = spec_leaves(sig)
     if not lv:
         return out
-    for (p, fl, (w, sg), init) in rng.sample(lv, min(3, len(lv))):
+    for (p, fl, (w, sg), init) in rng.sample(lv, min(nl, len(lv))):
         if w == 0:
             continue
         v = init if fits(["s" if sg else "u", w], init) else 0
@@ -321,6 +321,8 @@ def gen_cases(tier, seed):
             cases.append({"k": "connect", "sigs": [sig], "args": t})
         cases.append({"k": "spec_connect", "sigs": [sig], "bs": [False, True]})
         cases.append({"k": "spec_connect", "sigs": [sig], "bs": [True, False]})
+        # the flipped side built as a fresh Signature of the flipped members (no FlippedSignature/FlippedInterface proxy)
+        cases.append({"k": "spec_connect", "sigs": [sig], "bs": [False, True], "mirror": True})
         flows = set()   # effective flows of the port MEMBERS (connect classifies members, also zero-length arrays)
         walk_ports(sig, lambda fl: flows.add(fl))
         if len(flows) == 1:
@@ -337,7 +339,7 @@ def gen_cases(tier, seed):
                 if rng.random() < 0.3:
                     a.append(arg(0, True, rng.random() < 0.5))
                 cases.append({"k": "connect", "sigs": [sig, s2], "args": a, "c": "sig_" + k})
-            for k, fl, e_in, e_out in obj_corruptions(rng, sig):
+            for k, fl, e_in, e_out in obj_corruptions(rng, sig, 2 if thorough else 1):
                 # arg 0 = create(x): the leaf is an input there iff fl == 1
                 a0, a1 = (e_in, e_out) if fl == 1 else (e_out, e_in)
                 cases.append({"k": "connect", "sigs": [sig], "args": [arg(0, False, False, a0), arg(0, True, False, a1)],
@@ -346,22 +348,25 @@ def gen_cases(tier, seed):
                               "c": "obj_" + k})
 
     # (1) exhaustive small scope
-    for d in (0, 1, 2, 3):
+    for d in (0, 1):
         for s in chain_sigs(d):
-            add_all(s, d <= 1, 1 if d <= 1 else 0)
-    c4 = chain_sigs(4)
-    for s in (c4 if thorough else rng.sample(c4, 60)):
-        add_all(s, False, 0)
+            add_all(s, True, 1)
+    for s in chain_sigs(2):
+        add_all(s, False, 1 if thorough else 0)
+    for d, nq in ((3, 16), (4, 8)):
+        cs = chain_sigs(d)
+        for s in (cs if thorough else rng.sample(cs, nq)):
+            add_all(s, False, 0)
     A = alphabet()
-    for m in A:
+    for i, m in enumerate(A):
         for w in (False, True):
-            add_all({"w": w, "ms": [["a", m]]}, True, 1)
+            add_all({"w": w, "ms": [["a", m]]}, thorough or (i + int(w)) % 4 == 0, 1 if thorough else 0.5)
     pairs = [(m1, m2) for m1 in A for m2 in A]
-    for m1, m2 in (pairs if thorough else rng.sample(pairs, 70)):
+    for m1, m2 in rng.sample(pairs, 500 if thorough else 16):
         n1, n2 = rng.sample(POOL, 2)
         add_all({"w": rng.random() < 0.5, "ms": [[n1, copy.deepcopy(m1)], [n2, copy.deepcopy(m2)]]}, False, 0.5)
     # (2) seeded random trees
-    N = 2500 if thorough else 110
+    N = 1200 if thorough else 30
     for i in range(N):
         depth = rng.choice((1, 2, 2, 3, 3, 4))
         s = rnd_sig(rng, depth, oor=0.04, ifd=rng.random() < 0.4)
@@ -711,7 +716,10 @@ def run_impl(c):
         except Exception as e:
             return [-1, exc_code(e)]
     if k == "spec_connect":
-        objs = [(sigs[0].flip() if b else sigs[0]).create(path=(f"o{i}",)) for i, b in enumerate(c["bs"])]
+        fx = sigs[0].flip()
+        if c.get("mirror"):
+            fx = wiring.Signature(dict(fx.members.items()))
+        objs = [(fx if b else sigs[0]).create(path=(f"o{i}",)) for i, b in enumerate(c["bs"])]
         try:
             m, st, per, err = run_connect(objs)
         except Exception as e:
@@ -738,14 +746,14 @@ def t_ms(ms):
     rows = []
     for n, m in ms:
         if m[0] == "p":
-            rows.append(f"({RANK[n]}, P {m[1]} {t_shape_init(m)} {zlist(m[4])})")
+            rows.append(f"MP {RANK[n]} {m[1]} {t_shape_init(m)} {zlist(m[4])}")
         else:
-            rows.append(f"({RANK[n]}, I {m[1]} {blit(m[2])} {t_ms(m[3])} {zlist(m[4])})")
+            rows.append(f"MI {RANK[n]} {m[1]} {blit(m[2])} {t_ms(m[3])} {zlist(m[4])}")
     return "[" + "; ".join(rows) + "]"
 
 
 def t_sig(s):
-    return f"({blit(s['w'])}, {t_ms(s['ms'])})"
+    return f"Sg {blit(s['w'])} {t_ms(s['ms'])}"
 
 
 def t_path(p):
@@ -766,7 +774,7 @@ def t_edit(k, p, e):
 
 
 def t_arg(k, a):
-    eds = "[" + "; ".join(f"({t_path(p)}, {t_edit(k, p, e)})" for p, e in a["edits"]) + "]"
+    eds = "[" + "; ".join(f"Ed {t_path(p)} ({t_edit(k, p, e)})" for p, e in a["edits"]) + "]"
     return f"mk x{a['sig']} {k} {blit(a['fs'])} {blit(a['fo'])} {eds}"
 
 
